@@ -168,7 +168,7 @@ def _mk_energy(npol):
             mk_gv(ex)
             x = mk_osig(ex, 'x', N, npol, False)
             return x, ex.call_fn(ff, [x, L], {'alpha': al, 'beta_2': b2, 'beta_3': b3, 'gamma': gm, 'phi_max': phi})
-        ps = K.paths(run, pre, lambda ex: setup_loop(ex, npol, holder))
+        ps = K.paths(run, pre, lambda ex: setup_loop(ex, npol, holder), expect_loops=True)
         kinds = {}
         for p in ps:
             kinds[p.kind] = kinds.get(p.kind, 0) + 1
